@@ -4,7 +4,9 @@ import (
 	"verif/internal/core"
 )
 
-var Strategies = []string{"random", "sticky50", "sticky90", "pct1", "pct2", "pct3", "fifo", "lifo"}
+// Strategies are the randomised scheduling strategies (fifo and lifo are
+// deterministic and are run once per case, not drawn).
+var Strategies = []string{"random", "random", "random", "sticky50", "sticky50", "sticky90", "winpre", "winpre", "winpre", "pct1", "pct2", "pct3"}
 
 // RandomPlan draws a schedule strategy and a map-order mode (swarm style:
 // every run gets its own mix).
